@@ -11,7 +11,10 @@
 #include <atomic>
 #include <cstdio>
 #include <cstdlib>
+#include <deque>
 #include <functional>
+#include <map>
+#include <pthread.h>
 #include <memory>
 #include <set>
 #include <string>
@@ -60,6 +63,15 @@ public:
         wait_pred pred{nullptr, nullptr};
         std::function<void()> body;
         unsigned steps = 0;
+        // --- threads adopted from library code through the interposed pthread_create ---
+        bool adopted = false;
+        pthread_t pth{};
+        std::atomic<int> started{0};
+        void *(*start_routine)(void *) = nullptr;
+        void *start_arg = nullptr;
+        // --- interposed condition variables ---
+        bool notified = false;
+        long long deadline_ns = -1;     // absolute virtual time of a timed wait (-1: none)
     };
 
     vsched() = default;
@@ -80,6 +92,8 @@ public:
         thread_ctl *p = t.get();
         _threads.push_back(std::move(t));
         p->st = st_t::running;
+        bool saved_adopt = adopt_threads;
+        adopt_threads = false;      // the harness's own scenario threads are created here, not adopted
         p->th = std::thread([this, p] {
             self() = p;
             p->body();
@@ -88,6 +102,7 @@ public:
             self() = nullptr;
             signal_controller();
         });
+        adopt_threads = saved_adopt;
         wait_for_thread();
         return p->id;
     }
@@ -135,14 +150,188 @@ public:
     }
 
     void join_all() {
-        for (auto &t : _threads) if (t->th.joinable()) {
+        for (auto &t : _threads) if (t && t->th.joinable()) {
             if (t->st != st_t::done) {
                 // cannot be joined: a stuck thread; detach (reported by the caller as deadlock)
                 t->th.detach();
                 (void) t.release();   // leak the control block: the thread may still touch it
             } else t->th.join();
         }
+        // adopted threads are joined/detached by the library code that created them; their control
+        // blocks are kept until every one of them has finished
+        for (auto &t : _threads) if (t && t->adopted && t->st != st_t::done) { (void) t.release(); }
         _threads.clear();
+        mutex_owner.clear();
+        cond_waiters.clear();
+    }
+
+
+    // =========================================================================================
+    // virtual pthread layer (used by cocls_verif/pthread_shim.h).  Managed threads never touch the
+    // real mutex / condition variable: ownership and wait sets are kept here, so taking a lock,
+    // waiting and being notified are scheduling points with exact enabledness.
+    // =========================================================================================
+    bool adopt_threads = false;  // threads created through the interposed pthread_create become managed threads
+    bool lock_grain = false;     // scheduling points: lock (before), unlock (after), cond wait, thread ops, marks
+    bool virtual_clock = false;
+    long long vnow_ns = 1000000000LL * 1000000;   // virtual CLOCK_REALTIME
+
+    std::map<const void *, int> mutex_owner;                  // virtual mutex -> owning managed thread
+    std::map<const void *, std::deque<int>> cond_waiters;     // virtual condvar -> waiting threads (FIFO)
+
+    int owner_of(const void *m) const { auto it = mutex_owner.find(m); return it == mutex_owner.end() ? -1 : it->second; }
+    std::size_t waiters_on(const void *c) const { auto it = cond_waiters.find(c); return it == cond_waiters.end() ? 0 : it->second.size(); }
+    int holds_any(int t) const { int n = 0; for (auto &kv : mutex_owner) if (kv.second == t) n++; return n; }
+
+    struct lock_ctx { vsched *s; const void *m; };
+    static bool lock_free_pred(const void *c) { auto x = static_cast<const lock_ctx *>(c); return x->s->owner_of(x->m) < 0; }
+
+    void v_lock(thread_ctl *me, const void *m, std::source_location loc = std::source_location::current()) {
+        event e; e.op = op_t::lock; e.obj = m; e.file = loc.file_name(); e.func = "pthread_mutex_lock"; e.line = loc.line();
+        lock_ctx lc{this, m};
+        for (;;) {
+            me->pending = e; me->is_wait = true; me->after = false; me->pred = wait_pred{&lc, &lock_free_pred};
+            park(me);
+            if (owner_of(m) < 0) break;
+        }
+        me->is_wait = false;
+        mutex_owner[m] = me->id;
+        log_only(e, me);
+    }
+    bool v_trylock(thread_ctl *me, const void *m) {
+        if (owner_of(m) >= 0) return false;
+        mutex_owner[m] = me->id;
+        return true;
+    }
+    void v_unlock(thread_ctl *me, const void *m) {
+        event e; e.op = op_t::unlock; e.obj = m; e.func = "pthread_mutex_unlock";
+        mutex_owner.erase(m);
+        log_only(e, me);
+        // scheduling point *after* the unlock: the code that follows the critical section is its own step
+        me->pending = e; me->is_wait = false; me->after = true;
+        park(me);
+    }
+
+    struct cond_ctx { vsched *s; thread_ctl *me; };
+    static bool cond_pred(const void *c) {
+        auto x = static_cast<const cond_ctx *>(c);
+        return x->me->notified || (x->me->deadline_ns >= 0 && x->s->vnow_ns >= x->me->deadline_ns);
+    }
+    // returns true when woken by a notification, false on (virtual) timeout
+    bool v_cond_wait(thread_ctl *me, const void *c, const void *m, long long deadline_ns) {
+        event e; e.op = op_t::cond_wait; e.obj = c; e.func = "pthread_cond_wait"; e.arg = (std::uint64_t) deadline_ns;
+        mutex_owner.erase(m);
+        internal_allocs++;
+        cond_waiters[c].push_back(me->id);
+        internal_allocs--;
+        me->notified = false;
+        me->deadline_ns = deadline_ns;
+        cond_ctx cc{this, me};
+        for (;;) {
+            me->pending = e; me->is_wait = true; me->after = false; me->pred = wait_pred{&cc, &cond_pred};
+            park(me);
+            if (cond_pred(&cc)) break;
+        }
+        bool by_notify = me->notified;
+        if (!by_notify) {   // timed out: leave the wait set
+            auto &q = cond_waiters[c];
+            for (auto it = q.begin(); it != q.end(); ++it) if (*it == me->id) { q.erase(it); break; }
+        }
+        me->notified = false;
+        me->deadline_ns = -1;
+        me->is_wait = false;
+        log_only(e, me);
+        // re-acquire the mutex (a scheduling point of its own: the mutex may be taken)
+        lock_ctx lc{this, m};
+        event le; le.op = op_t::lock; le.obj = m; le.func = "pthread_cond_wait:relock";
+        while (owner_of(m) >= 0) {
+            me->pending = le; me->is_wait = true; me->after = false; me->pred = wait_pred{&lc, &lock_free_pred};
+            park(me);
+        }
+        me->is_wait = false;
+        mutex_owner[m] = me->id;
+        return by_notify;
+    }
+    void v_cond_notify(thread_ctl *me, const void *c, bool all) {
+        event e; e.op = all ? op_t::cond_broadcast : op_t::cond_signal; e.obj = c; e.func = "pthread_cond_notify";
+        auto it = cond_waiters.find(c);
+        if (it != cond_waiters.end()) {
+            while (!it->second.empty()) {
+                int w = it->second.front();
+                it->second.pop_front();
+                _threads[w]->notified = true;
+                if (!all) break;
+            }
+        }
+        if (me) log_only(e, me);
+    }
+
+    // ---- thread creation / join ----
+    thread_ctl *adopt_begin(void *(*fn)(void *), void *arg) {
+        internal_allocs++;
+        auto t = std::make_unique<thread_ctl>();
+        t->id = (int) _threads.size();
+        t->adopted = true;
+        t->start_routine = fn;
+        t->start_arg = arg;
+        t->st = st_t::starting;
+        thread_ctl *p = t.get();
+        _threads.push_back(std::move(t));
+        internal_allocs--;
+        return p;
+    }
+    // runs on the new thread (called from the shim's trampoline)
+    void *adopt_run(thread_ctl *p) {
+        self() = p;
+        event e; e.op = op_t::thread_start; e.func = "thread_start";
+        p->pending = e; p->is_wait = false; p->after = false;
+        p->st = st_t::parked;
+        // initial park: wake the *creator* (not the controller), then wait for the first grant
+        p->started.store(1, std::memory_order_release);
+        p->started.notify_all();
+        p->go.wait(0, std::memory_order_acquire);
+        p->go.store(0, std::memory_order_relaxed);
+        void *r = p->start_routine(p->start_arg);
+        p->st = st_t::done;
+        self() = nullptr;
+        signal_controller();
+        return r;
+    }
+    void adopt_wait_started(thread_ctl *p) { p->started.wait(0, std::memory_order_acquire); }
+    thread_ctl *find_pthread(pthread_t th) {
+        for (auto &t : _threads) if (t && t->adopted && pthread_equal(t->pth, th)) return t.get();
+        return nullptr;
+    }
+    static bool done_pred(const void *c) { return static_cast<const thread_ctl *>(c)->st == st_t::done; }
+    void v_join_wait(thread_ctl *me, thread_ctl *target) {
+        event e; e.op = op_t::thread_join; e.func = "pthread_join"; e.arg = (std::uint64_t) target->id;
+        for (;;) {
+            me->pending = e; me->is_wait = true; me->after = false; me->pred = wait_pred{target, &done_pred};
+            park(me);
+            if (target->st == st_t::done) break;
+        }
+        me->is_wait = false;
+        log_only(e, me);
+    }
+    int id_of(const thread_ctl *t) const { return t->id; }
+    bool is_adopted(int t) const { return _threads[t]->adopted; }
+
+    // earliest deadline among threads blocked in a timed wait (-1: none)
+    long long earliest_deadline() const {
+        long long best = -1;
+        for (auto &t : _threads) if (t->st == st_t::parked && t->is_wait && t->deadline_ns >= 0 && !t->notified)
+            if (best < 0 || t->deadline_ns < best) best = t->deadline_ns;
+        return best;
+    }
+
+    void log_only(const event &e, thread_ctl *s) {
+        if (!log_enabled) return;
+        internal_allocs++;
+        logged_event le;
+        static_cast<event &>(le) = e;
+        le.thread = s->id;
+        _log.push_back(le);
+        internal_allocs--;
     }
 
     std::vector<logged_event> &log() { return _log; }
@@ -159,6 +348,7 @@ public:
         thread_ctl *s = self();
         if (!s) return;
         if (no_yield && no_yield(e)) return;   // logged, but not a scheduling point
+        if (lock_grain && e.op != op_t::mark) return;   // lock grain: atomics are not scheduling points
         s->pending = e;
         s->is_wait = false;
         s->after = false;
@@ -176,7 +366,7 @@ public:
             _log.push_back(le);
         }
         internal_allocs--;
-        if (yield_after && !(no_yield && no_yield(e))) {
+        if (yield_after && !(no_yield && no_yield(e)) && !(lock_grain && e.op != op_t::mark)) {
             // finest grain: the thread-local code following the operation is a step of its own
             s->pending = e;
             s->is_wait = false;
